@@ -1,4 +1,5 @@
 import Upf.Proofs.Up4Frames
+import Upf.Proofs.Up4Ids
 import Upf.Proofs.Up4Reject
 /-!
 # C15 — P4 datapath IDs stay exclusive and in their own pool under write failures
@@ -13,8 +14,11 @@ Proved here, for every request sequence of any length and every environment:
   the popped cells back where they came from (no migration);
 * an establishment or the create/update part of a modification whose datapath answered "accepted" had no failed Write
   (other than the tolerated ALREADY_EXISTS).
-Counter cells, tunnel-peer IDs and application IDs are decided by the correspondence run and the oracles of the acceptor
-(`Check/P4.lean`: `poolFindings`, `exclusiveFindings`), not by a theorem — see DESIGN.md.
+* tunnel-peer IDs and application IDs: the ID a recorded peer / application holds is never in the free queue, two recorded
+  holders never share an ID, the queue never holds an ID twice.
+Counter cells are decided by the correspondence run and the oracles of the acceptor (`Check/P4.lean`: `poolFindings`,
+`exclusiveFindings`), not by a theorem: their owners are the PDRs of the stored sessions, which live in the handlers'
+state — see DESIGN.md.
 -/
 namespace C15
 open Up4
@@ -55,6 +59,36 @@ theorem meters_inv (cfg : Cfg4) (srv : Srv) (startInjs : List Inj) (h : List Ste
     | create all updated => exact sendCreate_inv cfg _ all updated base
     | update all updated => exact sendUpdate_inv cfg _ all updated base
     | delete del => exact sendDelete_inv cfg _ del base
+
+/-- **the tunnel-peer and application ID invariants hold in every reachable state** -/
+theorem ids_inv (cfg : Cfg4) (srv : Srv) (startInjs : List Inj) (h : List Step) : IdsInv (run cfg srv startInjs h).st := by
+  unfold run
+  have base := start_idsinv cfg srv startInjs
+  generalize (start cfg srv startInjs).1 = c at base
+  induction h generalizing c with
+  | nil => exact base
+  | cons s rest ih =>
+    simp only [List.foldl_cons]
+    apply ih
+    unfold apply
+    cases s.req with
+    | create all updated => exact sendCreate_idsinv cfg _ all updated base
+    | update all updated => exact sendUpdate_idsinv cfg _ all updated base
+    | delete del => exact sendDelete_idsinv cfg _ del base
+
+/-- a tunnel-peer ID in use is not free, and is not the ID of another peer -/
+theorem peer_id_exclusive (cfg : Cfg4) (srv : Srv) (si : List Inj) (h : List Step) (tp : TP) (pr : Shared)
+    (hp : mapGet (run cfg srv si h).st.peers tp = some pr) :
+    pr.id ∉ (run cfg srv si h).st.peerPool ∧
+    ∀ tp' pr', tp' ≠ tp → mapGet (run cfg srv si h).st.peers tp' = some pr' → pr'.id ≠ pr.id :=
+  ⟨(ids_inv cfg srv si h).peers.held tp pr hp, fun tp' pr' hne hp' => (ids_inv cfg srv si h).peers.owners tp' tp pr' pr hne hp' hp⟩
+
+/-- an application ID in use is not free, and is not the ID of another application -/
+theorem app_id_exclusive (cfg : Cfg4) (srv : Srv) (si : List Inj) (h : List Step) (af : AF) (ap : AppRec)
+    (hp : mapGet (run cfg srv si h).st.apps af = some ap) :
+    ap.id ∉ (run cfg srv si h).st.appPool ∧
+    ∀ af' ap', af' ≠ af → mapGet (run cfg srv si h).st.apps af' = some ap' → ap'.id ≠ ap.id :=
+  ⟨(ids_inv cfg srv si h).apps.held af ap hp, fun af' ap' hne hp' => (ids_inv cfg srv si h).apps.owners af' af ap' ap hne hp' hp⟩
 
 /-- never free while held: the cells of a recorded meter are not in the pool they were taken from -/
 theorem held_not_free (cfg : Cfg4) (srv : Srv) (si : List Inj) (h : List Step) (key : Nat × Nat) (m : Meter)
